@@ -26,7 +26,10 @@
 (*          previous product state.  api = "network": G = the energies of  *)
 (*          the nodes of the path, in order.  span = the returned value.   *)
 (*                                                                         *)
-(* Clauses: TableShape, EntryMatches, StableShape,                         *)
+(*          tabfloat: the returned table has a floating dtype (tabdtype =  *)
+(*          its name): a table of Gibbs energies must not take an integer  *)
+(*          type from an integer-typed scan grid -> clause TableIsFloat.   *)
+(* Clauses: TableShape, TableIsFloat, EntryMatches, StableShape,           *)
 (* StableIsArgMinOfReturnedTable, OneDEqualsTwoDSlice, SpanDefinition,     *)
 (* Finite.                                                                 *)
 (***************************************************************************)
@@ -49,6 +52,7 @@ Scan1Clauses(e) ==
        rep == Plus1(e.st)
    IN (IF e.finite THEN {} ELSE {"Finite"})
       \cup (IF shapeT THEN {} ELSE {"TableShape"})
+      \cup (IF e.tabfloat THEN {} ELSE {"TableIsFloat"})
       \cup (IF shapeS THEN {} ELSE {"StableShape"})
       \cup (IF ~shapeT \/ ~e.finite THEN {} ELSE
               (IF \A i \in 1..e.n : \A j \in 1..e.np :
@@ -72,6 +76,7 @@ Scan2Clauses(e) ==
        shapeS == e.stshape = <<e.np, e.nq>> /\ Shape2OK(e.st, e.np, e.nq)
    IN (IF e.finite THEN {} ELSE {"Finite"})
       \cup (IF shapeT THEN {} ELSE {"TableShape"})
+      \cup (IF e.tabfloat THEN {} ELSE {"TableIsFloat"})
       \cup (IF shapeS THEN {} ELSE {"StableShape"})
       \cup (IF ~shapeT \/ ~e.finite THEN {} ELSE
               (IF \A i \in 1..e.n : \A j \in 1..e.np : \A k \in 1..e.nq :
